@@ -548,6 +548,7 @@ def run_select(w, M, cols, op, tags):
     allow = op["allow"]
 
     def add(col, fop, n_in=2):
+        w.ctx.label("filter:%s:%s" % (fop, col.role))
         val, exp = _rel_expect(col, fop, tags, n_in)
         where.append(exp)
         if fop == "EQ":
@@ -569,6 +570,7 @@ def run_select(w, M, cols, op, tags):
             vals.append(p)
             keys.append(_vkey(col.tree, t))
         name = "pk__token" if op["token_op"] == "EQ" else "pk__token__%s" % op["token_op"].lower()
+        w.ctx.label("filter:token:" + op["token_op"])
         kw[name] = functions.Token(*vals)
         where.append(["token:" + ",".join(c.db for c in pks), _CMP[op["token_op"]], json.dumps(keys)])
     else:
@@ -768,6 +770,7 @@ def interpret(case, ctx):
                     if what not in legal:
                         what = legal[(idx + size) % len(legal)]
                     updated.add(col.attr)
+                    ctx.label("qupdate:%s:%s" % (what, col.kind if col.collection else "scalar"))
                     if what == "none":
                         ukw[col.attr] = None
                         nulls.append(col.db)
@@ -986,10 +989,36 @@ def check(ctx, case, log, expected, by_db, pks, tags, batch_ts, empty_clause):
         return
     if len(observed) != len(_flatten_expected(expected, observed)):
         pass
+    # normal forms of everything that was sent
+    normed = []
+    for a in observed:
+        try:
+            normed.append(norm_statement(a, by_db, pks))
+        except Bad as b:
+            ctx.fail(b.key, b.msg + "   [statement: %s]" % _short(a))
+            return
+
+    def row_key(n):
+        """the row a statement addresses: its WHERE, or the key columns of an INSERT"""
+        if n["stmt"] == "insert":
+            return sorted([c, "=", v] for c, v in n["assign"].items() if c in key_names)
+        return [r for r in n.get("where", []) if r[0] in key_names or r[0].startswith("token:")]
+
+    key_names = set(c.db for c in by_db.values() if c.role in ("pk", "ck"))
+
+    def unrequested(j):
+        ctx.fail(["C37.statements", "unrequested", observed[j]["stmt"]] + _set_features(observed[j], by_db),
+                 "statement %s was sent but nothing requested it" % _short(observed[j]))
+
     i = 0
     kinds = set()
     for exp in expected:
         if exp["stmt"] == "instance":
+            # statements of other rows in front of the instance's own are somebody's leftovers
+            while i < len(observed) and normed[i][0]["stmt"] in ("update", "delete") and not _same_row(normed[i][0], exp, pks) and \
+                    any(_same_row(normed[j][0], exp, pks) for j in range(i + 1, len(observed))):
+                unrequested(i)
+                i += 1
             used = check_instance(ctx, exp, observed[i:], by_db, pks, tags)
             if used is None:
                 return
@@ -997,23 +1026,29 @@ def check(ctx, case, log, expected, by_db, pks, tags, batch_ts, empty_clause):
             n_clauses += 3
             kinds.update(["set", "where"])
             continue
-        if i >= len(observed):
+        want_row = row_key(exp)
+        j = None
+        for cand in range(i, len(observed)):
+            if normed[cand][0]["stmt"] == exp["stmt"] and row_key(normed[cand][0]) == want_row:
+                j = cand
+                break
+        if j is None and i < len(observed) and normed[i][0]["stmt"] == exp["stmt"]:
+            j = i           # same kind, another row: the WHERE comparison below names the difference
+        if j is None:
             ctx.fail(["C37.statements", "missing", exp["stmt"]], "no %s statement was sent for the request %s" % (exp["stmt"].upper(), _short(exp)))
-            return
-        try:
-            got, own = norm_statement(observed[i], by_db, pks)
-        except Bad as b:
-            ctx.fail(b.key, b.msg + "   [statement: %s]" % _short(observed[i]))
-            return
-        i += 1
-        compare(ctx, exp, got)
+            continue
+        for skipped in range(i, j):
+            unrequested(skipped)
+        got, own = normed[j]
+        i = j + 1
+        compare(ctx, exp, got, by_db)
         check_owners(ctx, own, tags)
         n_clauses += len(got.get("where", [])) + len(got.get("set", [])) + len(got.get("if", [])) + len(got.get("assign", {})) + len(got.get("targets", []))
         for part in ("where", "set", "if", "assign", "targets"):
             if got.get(part):
                 kinds.add(part)
-    if i < len(observed):
-        ctx.fail(["C37.statements", "unrequested", observed[i]["stmt"]], "statement %s was sent but nothing requested it" % _short(observed[i]))
+    for j in range(i, len(observed)):
+        unrequested(j)
     ctx.label("statements:%d" % min(len(observed), 6))
     if empty_clause:
         ctx.label("empty-collection-clause")
@@ -1022,6 +1057,22 @@ def check(ctx, case, log, expected, by_db, pks, tags, batch_ts, empty_clause):
 
 def _flatten_expected(expected, observed):
     return expected
+
+
+def _same_row(n, exp, pks):
+    pk_names = [c.db for c in pks]
+    return n.get("where") == exp["where"] or n.get("where") == [r for r in exp["where"] if r[0] in pk_names]
+
+
+def _set_features(ast, by_db):
+    """what an unrequested UPDATE assigns: [op, column shape, 'empty' when the value is an empty collection]"""
+    if ast["stmt"] != "update" or not ast["set"]:
+        return []
+    a = ast["set"][0]
+    col = by_db.get(a["col"])
+    v = a["value"]
+    empty = v["k"] in ("set", "list", "map") and not v["items"]
+    return [a["op"], col.kind if col is not None else "?"] + (["empty"] if empty else [])
 
 
 def _stmt_kind(text):
@@ -1040,10 +1091,7 @@ def _blame_literal(ex):
             else:
                 cqlterm.parse_term(lit)
         except ValueError:
-            inner = ""
-            if type(v).__name__ == "InQuoter" and v.value:
-                inner = ":" + type(list(v.value)[0]).__name__
-            return type(v).__name__ + inner
+            return type(v).__name__
     return "?"
 
 
@@ -1052,7 +1100,7 @@ def _short(v):
     return s if len(s) < 300 else s[:300] + "..."
 
 
-def compare(ctx, exp, got):
+def compare(ctx, exp, got, by_db):
     k = exp["stmt"]
     if got["stmt"] != k:
         ctx.fail(["C37.statements", "kind", k], "expected %s, the statement sent is %s" % (k.upper(), _short(got)))
@@ -1125,7 +1173,7 @@ def compare(ctx, exp, got):
             cause = "value" if (lost and invented and sorted(r[:2] for r in lost) == sorted(r[:2] for r in invented)) else "structure"
             feature = []
             if invented and not lost:
-                feature = ["unrequested:%s" % invented[0][1]]
+                feature = ["unrequested", invented[0][1], by_db[invented[0][0]].kind] + (["empty"] if invented[0][3] in ("[]", "null") else [])
             ctx.fail(["C37.update.set", cause] + feature, "SET of the UPDATE: requested but not rendered %s; rendered but not requested %s" % (
                 _short(lost), _short(invented)))
         same_where()
@@ -1178,6 +1226,9 @@ def check_instance(ctx, exp, observed, by_db, pks, tags):
         except Bad as b:
             ctx.fail(b.key, b.msg + "   [statement: %s]" % _short(st_ast))
             return None
+        # a statement about another row (other key values) was produced by the next operation of the batch
+        if got["where"] != exp["where"] and got["where"] != [r for r in exp["where"] if r[0] in pk_names]:
+            continue
         used += 1
         # WHERE: the whole primary key (or just the partition key when only static columns are written)
         cols_here = [s[0] for s in got.get("set", [])] + [t[0] for t in got.get("targets", [])]
@@ -1224,4 +1275,4 @@ def check_instance(ctx, exp, observed, by_db, pks, tags):
 def parts(tier):
     cqlterm.self_test()
     cqlparse.self_test()
-    return [hyp_part("programs", s_case, interpret, tier, quick=700, thorough=6000)]
+    return [hyp_part("programs", s_case, interpret, tier, quick=1200, thorough=8000)]
